@@ -52,8 +52,8 @@ prop("C01", ["prims.go", "c01.go"],
      note="Bound: " + C01_BOUND + ". Contracts: resolver, base64 and x509 outcomes are uninterpreted predicates; bufio/context/process are models. " + ENGINE)
 prop("C05", ["prims.go", "c01.go"],
      [run("start", "harnessC01", ["rejected"], native="start", quick={"witness": 24, "params": {"full": 0}, "bound": "as C01: every rejection cause the solver finds feasible (each field invalid in turn, timeout, EOF while alive, exit before output) x the configuration space of C01"}),
-      run("kill-after", "harnessC05killAfter", ["start-failed", "start-succeeded", "kill-later", "more-stdout-after-the-line", "unix-socket-config", "second-start-before-kill"], files=WORLD,
-          quick={"bound": "scripted plugins announcing five kinds of line (multiplexing unsupported, 4-field, net/rpc, gRPC, garbage), followed or not by two more stdout lines, x allowed list x launch {RunnerFunc, exec.Cmd}; UnixSocketConfig nil or given; after a failed Start, optionally a second Start, then Kill at once or three seconds later: returns promptly, process dead, socket directory removed"})],
+      run("kill-after", "harnessC05killAfter", ["start-failed", "start-succeeded", "kill-later", "more-stdout-after-the-line", "unix-socket-config", "second-start-before-kill", "silent-until-start-timeout"], files=WORLD,
+          quick={"bound": "scripted plugins announcing five kinds of line (multiplexing unsupported, 4-field, net/rpc, gRPC, garbage) or none at all until the start timeout (the RunnerFunc runner honours the context its Kill is given), followed or not by two more stdout lines, x allowed list x launch {RunnerFunc, exec.Cmd}; UnixSocketConfig nil or given; after a failed Start, optionally a second Start, then Kill at once or three seconds later: returns promptly, process dead, socket directory removed"})],
      [PROC, BUFIO, CTX, STR, NET, CRYPTO], ["as C01"],
      "launch by exec.Cmd (the real CmdRunner); process liveness is the model's (Kill was called on the runner)",
      text="Same symbolic run of the real Client.Start as C01 with the kill clause as the assertion: on every feasible path on which the runner was started and Start returns an error or panics, the runner's Kill has been called by then. Failure causes are not enumerated by hand - they are the paths the solver finds feasible.",
